@@ -289,7 +289,8 @@ def skeleton(args):
             return [(x[0] - 0.3) ** 2 + x[1], (x[0] + 0.5) ** 2 + (1 - x[1])]
 
     prob = P()
-    cls = {'nsga2': NS.NSGAII, 'epsmoea': GA.EpsMOEA, 'omopso': SW.OMOPSO, 'smpso': SW.SMPSO}[kind]
+    cls = {'nsga2': NS.NSGAII, 'epsmoea': GA.EpsMOEA, 'omopso': SW.OMOPSO, 'smpso': SW.SMPSO, 'psoga': SW.PSOGA}[kind]
+    only_containment = args.get('only_containment', False)
 
     def body(ctx):
         from artap.individual import Individual
@@ -302,13 +303,18 @@ def skeleton(args):
         alg = cls(prob)
         alg.options['max_population_size'] = N
         alg.options['max_population_number'] = G
-        if kind in ('omopso', 'smpso'):
+        if kind in ('omopso', 'smpso', 'psoga'):
             alg.n = N
         alg.run()
         ok = [c for c in box['calls'] if c[1] == 0]
         pops = prob.populations()
         ctx.output('successful_evaluations', len(ok))
         ctx.output('tags', sorted(pops))
+        if only_containment:
+            bad = [v for v, f in box['calls'] if any(x < lo - 0.5e-12 or x > hi + 0.5e-12 for x, (lo, hi) in zip(v, BOUNDS))]
+            ctx.check('every-evaluated-design-inside-the-box', len(bad) > 0)
+            ctx.check('run-evaluated-something', len(ok) < N)
+            return
         if kind == 'nsga2':
             ctx.check('budget-N*G-successful-evaluations', len(ok) != N * G)
             ctx.check('generations-1..G', sorted(pops) != list(range(1, G + 1)))
